@@ -85,6 +85,9 @@ def explore(ck, name, cfg, steps, label):
             rep = {"scenario": name, "step": st, "entry": i, "action": t, "options": o, "request": req, "mask": int(mask[i]),
                    "result": {k: v for k, v in res.items() if k != "coq_in"}, "history": hist(env)}
             env._pv_hist = getattr(env, "_pv_hist", []) + [i]
+            if t in ("node-application-install", "node-application-close", "node-service-restart", "node-service-stop", "node-service-pause") and res.get("status") == "success":
+                # directed: stay on the component whose lifecycle state just changed (installing / closed / restarting window)
+                focus, focus_left = ent((i, t, o, req, reaches)), 4
             if res.get("raised"):
                 ck.violation("mask-exec-raises:%s" % t, "executing entry %d (%s) raised %s" % (i, t, res["raised"]), rep)
             else:
